@@ -21,6 +21,10 @@ pub struct Choices {
 	/// that sits at an index <= 255 in the input and lands past 255 in a re-written file)
 	#[serde(default)]
 	pub pool_first: Vec<i32>,
+	/// percentage of the uses of a constant that already has an entry which get a fresh, equal entry of their own
+	/// (a *used* duplicate: legal, and the index a later use refers to is not the first entry with that content)
+	#[serde(default)]
+	pub dup_used: u8,
 }
 
 impl Choices {
@@ -28,7 +32,7 @@ impl Choices {
 		Choices::default()
 	}
 	pub fn is_canonical(&self) -> bool {
-		self.pool_seed == 0 && self.attr_seed == 0 && self.stream.iter().all(|b| *b == 0) && self.junk_pool == 0 && self.pool_first.is_empty()
+		self.pool_seed == 0 && self.attr_seed == 0 && self.stream.iter().all(|b| *b == 0) && self.junk_pool == 0 && self.pool_first.is_empty() && self.dup_used == 0
 	}
 }
 
@@ -173,6 +177,9 @@ pub struct Pool {
 	pub order: Vec<PKey>,
 	bsms: Vec<(Bsm, u16, Vec<u16>)>,
 	overflow: bool,
+	/// see `Choices::dup_used`
+	dup_pct: u8,
+	dup_seed: u64,
 }
 
 impl Pool {
@@ -221,7 +228,10 @@ impl Pool {
 	}
 	pub fn put(&mut self, key: PKey) -> u16 {
 		if let Some(i) = self.map.get(&key) {
-			return *i;
+			let fresh = self.dup_pct > 0 && self.entries.len() < 60000 && (lcg(&mut self.dup_seed) >> 33) % 100 < self.dup_pct as u64;
+			if !fresh {
+				return *i;
+			}
 		}
 		let entry = match &key {
 			PKey::Utf8(s) => PEntry::Utf8(mutf8(s)),
@@ -1247,6 +1257,8 @@ fn encode_with(c: &CClass, ch: &Choices, preset: Option<Vec<PKey>>) -> Result<(E
 	} else {
 		register_bsms(c, &mut enc.pool);
 	}
+	enc.pool.dup_pct = ch.dup_used;
+	enc.pool.dup_seed = ch.pool_seed ^ 0x0123_4567_89ab_cdef ^ ch.dup_used as u64;
 	let mut body = W::default();
 	body.u16(c.access, "access_flags");
 	body.u16(enc.pool.class(&c.name), "this_class");
